@@ -386,6 +386,15 @@ func TestC10_WireFormat(t *testing.T) {
 			if err != nil {
 				t.Fatalf("valid set cannot be built through setters: %v [%s]", err, m.ClassVector())
 			}
+			if rapid.IntRange(0, 3).Draw(t, "bystander") == 0 {
+				// ANOTHER claims-set built through the same setters is re-used
+				// as decode target of a token with other values (flag 23 ...)
+				// before the subject is encoded: the subject's encoding is
+				// still exactly its own claims (checked against the model below)
+				if msg := c11Bystander(t, p, c); msg != "" {
+					t.Fatalf("C10 violated: %s", msg)
+				}
+			}
 			if genBool.Draw(t, "refused") {
 				// setter calls that are REFUSED (invalid values; component
 				// lists whose first entries are fine and a later one is not)
